@@ -446,9 +446,9 @@ func families(w *world) []*family {
 	add(&family{name: "pkcs8-pbes2-gcm-parameter-sizes", kdf: true, params: names("sm4gcm", "aes128gcm", "aes192gcm", "aes256gcm"),
 		gen: func(c *mon.Case, p string, emit func(string, []byte)) {
 			ci := gcmCiphers[p]
-			for _, nn := range []int{0, 1, 8, 11, 12, 13, 16, 32} {
-				for _, icv := range []int64{-1 << 40, -1, 0, 1, 4, 8, 11, 12, 13, 15, 16, 17, 32, 255, 1<<31 - 1, 1 << 40, -999} {
-					for _, ctn := range []int{0, 1, 11, 12, 15, 16, 17, 40} {
+			for _, nn := range []int{0, 1, 11, 12, 13, 16} {
+				for _, icv := range []int64{-1 << 40, -1, 0, 4, 11, 12, 13, 16, 17, 1<<31 - 1, -999} {
+					for _, ctn := range []int{0, 11, 12, 16, 40} {
 						params := dSeq(dOct(pat(c.R, nn)), dInt(icv))
 						if icv == -999 {
 							params = dSeq(dOct(pat(c.R, nn)))
@@ -514,8 +514,8 @@ func families(w *world) []*family {
 		}, calls: p8calls})
 
 	// ---- PKCS#7 encrypted-data with chosen IV / content sizes under the genuine PSK ----
-	sm2EncData := asn1.ObjectIdentifier{1, 2, 156, 10197, 6, 1, 4, 2, 4}
-	sm2Data := asn1.ObjectIdentifier{1, 2, 156, 10197, 6, 1, 4, 2, 1}
+	sm2EncData := pkcs7.SM2OIDEncryptedData
+	sm2Data := pkcs7.SM2OIDData
 	add(&family{name: "pkcs7-encrypted-data-sizes", params: names("sm4cbc", "sm4ecb", "sm4gcm", "aes128cbc"),
 		gen: func(c *mon.Case, p string, emit func(string, []byte)) {
 			ci := map[string]pkcs.Cipher{"sm4cbc": pkcs.SM4CBC, "sm4ecb": pkcs.SM4ECB, "sm4gcm": pkcs.SM4GCM, "aes128cbc": pkcs.AES128CBC}[p]
@@ -566,7 +566,8 @@ func families(w *world) []*family {
 	add(&family{name: "cfca-sm2-blob-key-sizes", params: names("plaintext-size", "ciphertext-size"),
 		gen: func(c *mon.Case, p string, emit func(string, []byte)) {
 			blob := func(enc []byte) []byte {
-				return dSeq(dInt(1), dSeq(dOID(sm2Data), dOID(pkcs.SM4.OID()), dOct(enc)), dSeq(dOID(sm2Data), w.leaf.Raw))
+				// the layout cfca.MarshalSM2 emits (certificate inside an OCTET STRING)
+				return dSeq(dInt(1), dSeq(dOID(sm2Data), dOID(pkcs.SM4.OID()), dOct(enc)), dSeq(dOID(sm2Data), dOct(w.leaf.Raw)))
 			}
 			if p == "plaintext-size" {
 				// a correctly encrypted "private key" of every size: the decrypted scalar is data
